@@ -306,3 +306,27 @@ Lemma content_only_through_observations_l : forall (c1 c2 : content) st d f r,
 Proof.
   intros c1 c2 st d f r Hp Hr. unfold process_reply. rewrite Hp, Hr. reflexivity.
 Qed.
+
+(* the delivery paths coincide on ARBITRARY content *)
+Lemma paths_coincide_any_content_l : forall (c : content) st n f r,
+  via_inject c st (Some n) f r = via_context c st (Some n) f r /\
+  via_error (Some c) st n f r = via_context c st (Some n) f r /\
+  via_error None st n f r = via_context CEmpty st (Some n) f r /\
+  forall code, via_reply c code f r = via_context c None None f r.
+Proof.
+  intros c st n f r. unfold via_inject, via_error, via_context, via_reply.
+  rewrite !method_call_transparent_l. repeat split.
+Qed.
+
+(* on every path that carries a status, a status outside {200,202,204,500}
+   ends as (status, some description) whatever was delivered *)
+Lemma other_status_any_path_l : forall p (c : content) s desc f r,
+  p <> PthReply -> s <> 200 -> s <> 202 -> s <> 204 -> s <> 500 ->
+  exists d, run_via p c (Some s) desc f r = if f then RaiseStatus s d else RetPair s d.
+Proof.
+  intros p c s desc f r Hp H200 H202 H204 H500.
+  destruct p as [|has_fp| |]; [congruence| | |];
+    cbn [run_via]; unfold via_error, via_inject, via_context;
+    rewrite ?method_call_transparent_l, other_status_any_content_l by assumption;
+    eexists; reflexivity.
+Qed.
